@@ -38,6 +38,7 @@ func runC16(r *an.Run) {
 		c16Messages(r, m)
 		crossFileState(r, m, "R7-one-file-failure-does-not-affect-others")
 	}
+	runnerNeverCopied(r, "R5-exit-status")
 	// a bad argument can only be reported if every argument is examined
 	c15OnceInOrder(r)
 	relabel(r, "R3-each-file-once-in-fixed-order", "R8-every-argument-examined")
@@ -852,4 +853,45 @@ func stageErrorsNameTheFile(r *an.Run, m *runModel, h *ssa.Function) bool {
 		}
 	}
 	return n > 0
+}
+
+// runnerNeverCopied (part of C16-R5): the patch runner collects the "could not
+// update" errors of all files in a slice field, and Run reports what that field
+// holds at the end. Errors appended through a copy of the runner (a value
+// receiver, `w := *runner` per worker) stay in the copy: the run would exit 0
+// with nothing on stderr. So in package main the runner struct is never loaded
+// as a value, and none of its methods has a value receiver.
+func runnerNeverCopied(r *an.Run, rule string) {
+	r.Rule(rule)
+	rt := runnerType(r)
+	if rt == nil {
+		return
+	}
+	n := 0
+	for _, f := range r.P.PkgFuncs(mainP) {
+		if recv := f.Signature.Recv(); recv != nil && types.Identical(recv.Type(), rt) {
+			n++
+			r.Fail(short(f)+"|value-receiver", f.Pos(), "%s has a value receiver of the patch runner type: what it records is recorded in a copy and never reported", short(f))
+		}
+		for _, b := range f.Blocks {
+			for _, in := range b.Instrs {
+				v, ok := in.(ssa.Value)
+				if !ok || v.Type() == nil {
+					continue
+				}
+				if _, isTuple := v.Type().(*types.Tuple); isTuple || !isRunnerType(r, v.Type()) {
+					continue
+				}
+				n++
+				if ld, isLoad := in.(*ssa.UnOp); isLoad && ld.Op == token.MUL && types.Identical(ld.Type(), rt) {
+					r.Fail(short(f)+"|runner-copied", ld.Pos(), "%s copies the patch runner by value: errors that the copy records for a file (\"could not update\") are not in the list Run reports at the end — the run exits 0 with a file silently left alone", short(f))
+				}
+			}
+		}
+	}
+	r.Count("uses of the patch runner", n)
+	r.Min("uses of the patch runner", 2)
+	if len(r.Failing()) == 0 {
+		r.Pass("runner-never-copied", 0, "%d values of the patch runner type in package main: all are pointers to the one runner (no value receiver, no struct copy)", n)
+	}
 }
